@@ -1,9 +1,10 @@
 (* C05 - write permissions follow the mode table; CI runs are read-only. *)
+From Coq Require Import String.
 From Coq Require Import List NArith Bool Lia.
 Import ListNotations.
 From Snaps Require Import Base.Bytes Base.Assoc.
 From Snaps Require Import Model.Frame Model.PathModel Model.Mode Model.Api.
-From Snaps Require Import Proofs.ApiP Proofs.StandaloneP Proofs.StepP Proofs.OutcomeP.
+From Snaps Require Import Proofs.ApiP Proofs.StandaloneP Proofs.StepP Proofs.OutcomeP Proofs.DirsP.
 
 (* the mode table (2 x 3 x 4 cells each), proved by exhaustive case analysis *)
 Theorem C05_update_table : forall e u,
@@ -45,6 +46,32 @@ Theorem C05_ci_readonly : forall ops s,
   Forall (fun o => o_writes o = []) (snd (run s ops)) /\ s_fs (fst (run s ops)) = s_fs s.
 Proof. exact run_ci_readonly. Qed.
 Print Assumptions C05_ci_readonly.
+
+(* ... nor creates a directory; and off CI a call creates a directory only where it may create a snapshot (Clean never
+   touches directories at all: C09_directories_untouched) *)
+Theorem C05_ci_no_directory : forall ops s,
+  Forall api_op ops -> ci (s_env s) = true -> s_dirs (fst (run s ops)) = s_dirs s.
+Proof. exact run_ci_dirs. Qed.
+Print Assumptions C05_ci_no_directory.
+Theorem C05_directory_needs_create : forall s a hd test p c,
+  nth_error (s_cfgs s) hd = Some c ->
+  should_create (s_env s) (c_update (match a with AStandJson => json_ext c | _ => c end)) = false ->
+  s_dirs (fst (step s (OMatch a hd test p))) = s_dirs s.
+Proof. exact step_dirs_need_create. Qed.
+Print Assumptions C05_directory_needs_create.
+
+(* non-vacuity: a missing snapshot under Update(false) fails and creates no directory; the same call with creation allowed
+   creates the snapshot directory *)
+Example C05_directory_example :
+  let e := {| ci := false; upd := UUnset; colour := false |} in
+  let s0 := init_state e (B "/r/x_test.go") (B "/S/def") in
+  let s1 := fst (step s0 (ONewConfig None (Some (B "/S/d")) None (Some false))) in
+  let s2 := fst (step s0 (ONewConfig None (Some (B "/S/d")) None None)) in
+  o_outcome (snd (step s1 (OMatch ASnap 1 (B "TestA") (POk (B "v"))))) = Failed ENotFound /\
+  s_dirs (fst (step s1 (OMatch ASnap 1 (B "TestA") (POk (B "v"))))) = s_dirs s1 /\
+  o_outcome (snd (step s2 (OMatch ASnap 1 (B "TestA") (POk (B "v"))))) = Added /\
+  s_dirs (fst (step s2 (OMatch ASnap 1 (B "TestA") (POk (B "v"))))) = (s_dirs s2 ++ [B "/S/d"])%list.
+Proof. vm_compute. repeat split. Qed.
 
 Example C05_example :
   let e := {| ci := true; upd := UTrue; colour := false |} in
